@@ -47,7 +47,7 @@ class TimedWorld:
     from miros.event import Event, signals
     self.Event, self.signals = Event, signals
     self.files = detsched.miros_files()
-    for s_ in ("VA", "VB", "VC", "VGATE", "VSTOP"):
+    for s_ in ("VA", "VB", "VC", "VD", "VE", "VGATE", "VSTOP", "VSLOW"):
       signals.append(s_)
     self.rec = aocheck.Rec()
     self.rec.gate["open"] = False
@@ -63,7 +63,7 @@ class TimedWorld:
         s.block(lambda: rec.gate["open"], None, what="gate")
       elif on_extra is not None:
         on_extra(c, e)
-    fn = aocheck.flat_chart(rec, on_dispatch=on_dispatch, sigs=["VA", "VB", "VC", "VGATE", "VSTOP"])
+    fn = aocheck.flat_chart(rec, on_dispatch=on_dispatch, sigs=["VA", "VB", "VC", "VD", "VE", "VGATE", "VSTOP", "VSLOW"])
     return chart, fn
 
   def run(self, body, step_limit=600000):
